@@ -69,24 +69,24 @@ type Client struct {
 	Cert     *x509.Certificate
 	T        *simnet.MemTransport
 	RPC      rpc.TunnelClient
-	Kind     string // registered | unregistered | nocert | foreign
+	Kind     string         // registered | unregistered | nocert | foreign
 	Verified *protocol.Node // the identity the server derives from the certificate
 }
 
 type World struct {
-	plan    *Plan
-	res     *hcommon.RunResult
-	cluster *ring.Cluster
-	snet    *simnet.StreamNet
-	servers []*Srv
-	clients []*Client
-	ca      tls.Certificate
-	r       *simrt.Rand
-	ctx     context.Context
-	cancel  context.CancelFunc
-	resolver *scriptedResolver
-	certs    *scriptedCerts
-	proofs   map[string]cachedProof
+	plan          *Plan
+	res           *hcommon.RunResult
+	cluster       *ring.Cluster
+	snet          *simnet.StreamNet
+	servers       []*Srv
+	clients       []*Client
+	ca            tls.Certificate
+	r             *simrt.Rand
+	ctx           context.Context
+	cancel        context.CancelFunc
+	resolver      *scriptedResolver
+	certs         *scriptedCerts
+	proofs        map[string]cachedProof
 	failTokenGets int
 }
 
@@ -103,14 +103,19 @@ type Plan struct {
 	Clients int    `json:"clients"`
 	Seed    uint64 `json:"seed"`
 	Ops     []COp  `json:"ops,omitempty"`
+	// C26: number of concurrent sessions per client (same identity, same token) and
+	// whether operations are issued in bursts (a few ms apart) instead of paced
+	NetSpike float64 `json:"net_spike,omitempty"`
+	Sessions int     `json:"sessions,omitempty"`
+	Burst    bool    `json:"burst,omitempty"`
 }
 
 type COp struct {
-	Client  int      `json:"client"`
-	Kind    string   `json:"kind"` // gen | publish | unpublish | release | list
-	Host    int      `json:"host"` // index into the hostnames known so far (any client's), -1: unregistered name
-	Servers []int    `json:"servers,omitempty"`
-	Via     int      `json:"via"`
+	Client  int    `json:"client"`
+	Kind    string `json:"kind"` // gen | publish | unpublish | release | list
+	Host    int    `json:"host"` // index into the hostnames known so far (any client's), -1: unregistered name
+	Servers []int  `json:"servers,omitempty"`
+	Via     int    `json:"via"`
 }
 
 func pick[T any](r *simrt.Rand, xs ...T) T { return xs[r.Intn(len(xs))] }
@@ -156,6 +161,10 @@ func (w *World) boot() bool {
 	p := w.plan
 	rp := &ring.Plan{Prop: "ctl", Stab: time.Second, Fix: 2 * time.Second, Pred: 3 * time.Second, MaxQuiet: 10}
 	rp.Net = simnet.Config{MinLatency: 100 * time.Microsecond, MaxLatency: 2 * time.Millisecond}
+	if p.NetSpike > 0 {
+		// occasional slow KV round trips between the gateways (reorders the tails of two requests)
+		rp.Net.SpikeProb, rp.Net.SpikeMax = p.NetSpike, 15*time.Millisecond
+	}
 	for i := 0; i < p.Servers; i++ {
 		rp.Nodes = append(rp.Nodes, ring.NodeSpec{ID: (w.r.Uint64() % (1 << 48)), Backend: "memory"})
 	}
@@ -251,6 +260,21 @@ func (w *World) dump() string {
 	return strings.Join(lines, "\n")
 }
 
+// callBusy is call, repeated a few times while the answer is "the client's lease is
+// held by another request" (what an impatient user or script does): the retry lands
+// right after the other request let go of the lease.
+func (w *World) callBusy(c *Client, via int, method string, req any) (resp any, err error) {
+	for i := 0; i < 6; i++ {
+		resp, err = w.call(c, via, method, req)
+		if err == nil || !strings.Contains(err.Error(), "lease has not expired") {
+			return
+		}
+		simrt.Probe("retried-on-busy-lease")
+		simrt.Sleep(time.Duration(200+w.r.Intn(1500))*time.Microsecond, "h:busy-retry")
+	}
+	return
+}
+
 func (w *World) call(c *Client, via int, method string, req any) (resp any, err error) {
 	ctx, cancel := context.WithTimeout(rpc.WithNode(w.ctx, w.servers[via%len(w.servers)].TunT.Identity()), 30*time.Second)
 	defer cancel()
@@ -277,6 +301,9 @@ func Run(t *testing.T, prop string, seed uint64, tier string, replay *hcommon.Re
 		p.Servers = 1 + r.Intn(5)
 	}
 	if prop == "C26" {
+		p.Sessions = 1 + r.Intn(2)
+		p.Burst = r.Chance(0.5)
+		p.NetSpike = pick(r, 0, 0.05, 0.2)
 		n := 12 + r.Intn(20)
 		for i := 0; i < n; i++ {
 			op := COp{Client: r.Intn(p.Clients), Kind: pick(r, "gen", "gen", "publish", "publish", "publish", "unpublish", "release", "list"), Host: r.Intn(8) - 1, Via: r.Intn(3)}
@@ -284,6 +311,13 @@ func Run(t *testing.T, prop string, seed uint64, tier string, replay *hcommon.Re
 				op.Servers = append(op.Servers, r.Intn(p.Servers+1))
 			}
 			p.Ops = append(p.Ops, op)
+			if p.Sessions > 1 && op.Host >= 0 && r.Chance(0.35) {
+				// the client's other session works on the same hostname at the same time
+				dup := op
+				dup.Kind = pick(r, "release", "release", "unpublish", "publish")
+				dup.Via = r.Intn(3)
+				p.Ops = append(p.Ops, dup)
+			}
 		}
 	}
 	if replay != nil && len(replay.Plan) > 0 {
@@ -449,22 +483,43 @@ func (w *World) checkC26() {
 	hosts := []string{}
 	own := map[string]*owned{}
 	pending := map[string]int{} // hostnames with an operation in flight are not judged
+	type listed struct {
+		client int
+		host   string
+	}
+	var listedUnknown []listed
+	genFailed := map[int]bool{} // a GenerateHostname of this client returned an error (it may still have registered a name)
+	started := map[string]int{} // operations ever started per hostname (an operation that starts while another is in flight contends with it, too)
 	var wg sync.WaitGroup
 	perClient := map[int][]COp{}
 	for _, op := range w.plan.Ops {
 		perClient[op.Client] = append(perClient[op.Client], op)
 	}
-	for ci := 0; ci < len(w.clients); ci++ {
-		ops := perClient[ci]
+	sessions := w.plan.Sessions
+	if sessions < 1 {
+		sessions = 1
+	}
+	for cs := 0; cs < len(w.clients)*sessions; cs++ {
+		ci, sess := cs/sessions, cs%sessions
+		var ops []COp
+		for i, op := range perClient[ci] {
+			if i%sessions == sess {
+				ops = append(ops, op)
+			}
+		}
 		if len(ops) == 0 {
 			continue
 		}
 		wg.Add(1)
 		c := w.clients[ci]
-		simrt.GoGroup("h:"+c.Name, "", func() {
+		simrt.GoGroup(fmt.Sprintf("h:%s.%d", c.Name, sess), "", func() {
 			defer wg.Done()
 			for _, op := range ops {
-				simrt.Sleep(time.Duration(120+w.r.Intn(400))*time.Millisecond, "h:pace")
+				if w.plan.Burst {
+					simrt.Sleep(time.Duration(w.r.Intn(4000))*time.Microsecond, "h:pace")
+				} else {
+					simrt.Sleep(time.Duration(120+w.r.Intn(400))*time.Millisecond, "h:pace")
+				}
 				mu.Lock()
 				host := "never-registered-name"
 				if op.Host >= 0 && len(hosts) > 0 {
@@ -472,14 +527,31 @@ func (w *World) checkC26() {
 				}
 				o := own[host]
 				mine := o != nil && o.live && o.owner == ci
-				contended := pending[host] > 0
+				contendedAtStart := pending[host] > 0
 				pending[host]++
+				started[host]++
+				startedMine := started[host]
 				mu.Unlock()
+				simrt.Event("c%d.%d %s %q via %d starts (mine=%v)", ci, sess, op.Kind, host, op.Via, mine)
+				if mine && contendedAtStart && op.Kind != "gen" && op.Kind != "list" {
+					simrt.Probe("own-hostname-op-overlaps-another")
+				}
 				done := func() { mu.Lock(); pending[host]--; mu.Unlock() }
+				// judged only if no other operation on the hostname overlapped this one
+				overlapped := func() bool {
+					mu.Lock()
+					defer mu.Unlock()
+					return contendedAtStart || started[host] != startedMine
+				}
 				switch op.Kind {
 				case "gen":
 					done()
 					g, err := w.call(c, op.Via, "GenerateHostname", &protocol.GenerateHostnameRequest{})
+					if err != nil {
+						mu.Lock()
+						genFailed[ci] = true
+						mu.Unlock()
+					}
 					if err == nil {
 						h := g.(*protocol.GenerateHostnameResponse).GetHostname()
 						mu.Lock()
@@ -501,31 +573,44 @@ func (w *World) checkC26() {
 							nodes = append(nodes, &protocol.Node{Address: "ghost:1", Id: 77})
 						}
 					}
-					resp, err := w.call(c, op.Via, "PublishTunnel", &protocol.PublishTunnelRequest{Hostname: host, Servers: nodes})
-					if err == nil && !mine && !contended {
+					resp, err := w.callBusy(c, op.Via, "PublishTunnel", &protocol.PublishTunnelRequest{Hostname: host, Servers: nodes})
+					simrt.Event("c%d.%d publish %q -> %v", ci, sess, host, err)
+					if err == nil && !mine && !overlapped() {
 						w.res.Violate("C26", "published-foreign-hostname", "client %d published hostname %q which is not registered to it (owner record %+v)", ci, host, o)
 					}
-					if err == nil && mine && !contended {
-						w.checkRoutes(c, host, nodes, resp.(*protocol.PublishTunnelResponse))
+					if err == nil && mine && !overlapped() {
+						// the stored routes are read through the ring, which takes time: the verdict
+						// only counts if no other operation on the hostname started meanwhile
+						var rep []hcommon.Violation
+						w.checkRoutes(&rep, c, host, nodes, resp.(*protocol.PublishTunnelResponse))
+						if !overlapped() {
+							w.res.Violations = append(w.res.Violations, rep...)
+						}
 					}
 					done()
 				case "unpublish":
-					_, err := w.call(c, op.Via, "UnpublishTunnel", &protocol.UnpublishTunnelRequest{Hostname: host})
-					if err == nil && !mine && !contended {
+					_, err := w.callBusy(c, op.Via, "UnpublishTunnel", &protocol.UnpublishTunnelRequest{Hostname: host})
+					simrt.Event("c%d.%d unpublish %q -> %v", ci, sess, host, err)
+					if err == nil && !mine && !overlapped() {
 						w.res.Violate("C26", "unpublished-foreign-hostname", "client %d unpublished hostname %q which is not registered to it", ci, host)
 					}
 					done()
 				case "release":
-					_, err := w.call(c, op.Via, "ReleaseTunnel", &protocol.ReleaseTunnelRequest{Hostname: host})
-					if err == nil && !mine && !contended {
+					_, err := w.callBusy(c, op.Via, "ReleaseTunnel", &protocol.ReleaseTunnelRequest{Hostname: host})
+					simrt.Event("c%d.%d release %q -> %v", ci, sess, host, err)
+					if err == nil && !mine && !overlapped() {
 						w.res.Violate("C26", "released-foreign-hostname", "client %d released hostname %q which is not registered to it", ci, host)
 					}
 					if err == nil && mine {
 						mu.Lock()
 						o.live = false
 						mu.Unlock()
-						if !contended {
-							w.checkReleased(c, host)
+						if !overlapped() {
+							var rep []hcommon.Violation
+							w.checkReleased(&rep, c, host)
+							if !overlapped() {
+								w.res.Violations = append(w.res.Violations, rep...)
+							}
 						}
 					}
 					done()
@@ -536,8 +621,12 @@ func (w *World) checkC26() {
 						for _, h := range resp.(*protocol.RegisteredHostnamesResponse).GetHostnames() {
 							mu.Lock()
 							oo := own[h]
+							if oo == nil {
+								// possibly generated by another session of this client whose call has not returned yet: judged at the end
+								listedUnknown = append(listedUnknown, listed{ci, h})
+							}
 							mu.Unlock()
-							if oo == nil || oo.owner != ci {
+							if oo != nil && oo.owner != ci {
 								w.res.Violate("C26", "listed-foreign-hostname", "client %d is shown hostname %q, which it never registered", ci, h)
 							}
 						}
@@ -548,6 +637,37 @@ func (w *World) checkC26() {
 	}
 	wg.Wait()
 	simrt.YieldAlways("h:c26-done")
+	for _, l := range listedUnknown {
+		if o := own[l.host]; (o == nil && !genFailed[l.client]) || (o != nil && o.owner != l.client) {
+			w.res.Violate("C26", "listed-foreign-hostname", "client %d was shown hostname %q, which it never registered", l.client, l.host)
+		}
+	}
+	// final state, judged when nothing is in flight any more: whatever the interleaving of
+	// one client's sessions was, a hostname that is not registered to its client has no
+	// routes, and every stored route names the client the hostname is registered to
+	for _, host := range hosts {
+		o := own[host]
+		c := w.clients[o.owner]
+		registered, err := w.cluster.Slots[0].Node.PrefixContains(context.Background(), []byte(tun.ClientHostnamesPrefix(c.Token)), []byte(host))
+		if err != nil {
+			continue
+		}
+		for i := 1; i <= 3; i++ {
+			raw := w.kvGet(tun.RoutingKey(host, i))
+			if len(raw) == 0 {
+				continue
+			}
+			simrt.Probe("final-route-seen")
+			if !registered {
+				w.res.Violate("C26", "route-for-unregistered-hostname", "at the end of the run hostname %q is not registered to client %d any more (released), yet route slot %d exists: a publish took effect after the release", host, o.owner, i)
+				continue
+			}
+			route := &protocol.TunnelRoute{}
+			if route.UnmarshalVT(raw) == nil && c.Verified != nil && route.GetClientDestination().GetId() != c.Verified.GetId() {
+				w.res.Violate("C26", "route-names-other-client", "at the end of the run route slot %d of %q names client %v; the hostname is registered to %v", i, host, route.GetClientDestination(), c.Verified)
+			}
+		}
+	}
 }
 
 func (w *World) kvGet(key string) []byte {
@@ -555,7 +675,7 @@ func (w *World) kvGet(key string) []byte {
 	return v
 }
 
-func (w *World) checkRoutes(c *Client, host string, requested []*protocol.Node, resp *protocol.PublishTunnelResponse) {
+func (w *World) checkRoutes(rep *[]hcommon.Violation, c *Client, host string, requested []*protocol.Node, resp *protocol.PublishTunnelResponse) {
 	// distinct requested servers by address, in request order
 	seen := map[string]bool{}
 	var want []*protocol.Node
@@ -566,50 +686,50 @@ func (w *World) checkRoutes(c *Client, host string, requested []*protocol.Node, 
 		}
 	}
 	if len(want) > 3 {
-		w.res.Violate("C26", "too-many-servers-accepted", "publish with %d distinct servers succeeded", len(want))
+		*rep = append(*rep, hcommon.Violation{Prop: "C26", Class: "too-many-servers-accepted", Msg: fmt.Sprintf("publish with %d distinct servers succeeded", len(want))})
 		return
 	}
 	for i, n := range want {
 		raw := w.kvGet(tun.RoutingKey(host, i+1))
 		route := &protocol.TunnelRoute{}
 		if len(raw) == 0 || route.UnmarshalVT(raw) != nil {
-			w.res.Violate("C26", "route-slot-missing", "after a successful publish of %q by client %d, route slot %d is empty or undecodable", host, c.Identity.GetId(), i+1)
+			*rep = append(*rep, hcommon.Violation{Prop: "C26", Class: "route-slot-missing", Msg: fmt.Sprintf("after a successful publish of %q by client %d, route slot %d is empty or undecodable", host, c.Identity.GetId(), i+1)})
 			continue
 		}
 		if c.Verified == nil || route.GetClientDestination().GetId() != c.Verified.GetId() || route.GetClientDestination().GetAddress() != c.Verified.GetAddress() {
-			w.res.Violate("C26", "route-names-other-client", "route slot %d of %q names client %v, the verified caller is %v", i+1, host, route.GetClientDestination(), c.Verified)
+			*rep = append(*rep, hcommon.Violation{Prop: "C26", Class: "route-names-other-client", Msg: fmt.Sprintf("route slot %d of %q names client %v, the verified caller is %v", i+1, host, route.GetClientDestination(), c.Verified)})
 		}
 		if route.GetTunnelDestination().GetAddress() != n.GetAddress() {
-			w.res.Violate("C26", "route-names-other-server", "route slot %d of %q names server %q, requested %q", i+1, host, route.GetTunnelDestination().GetAddress(), n.GetAddress())
+			*rep = append(*rep, hcommon.Violation{Prop: "C26", Class: "route-names-other-server", Msg: fmt.Sprintf("route slot %d of %q names server %q, requested %q", i+1, host, route.GetTunnelDestination().GetAddress(), n.GetAddress())})
 		}
 		for _, sv := range w.servers {
 			if sv.TunT.Identity().GetAddress() == n.GetAddress() {
 				reg := sv.TunT.Identity()
 				td := route.GetTunnelDestination()
 				if td.GetId() != reg.GetId() || td.GetRendezvous() != reg.GetRendezvous() || route.GetChordDestination().GetAddress() != sv.ChordT.Identity().GetAddress() {
-					w.res.Violate("C26", "route-server-identity-not-from-record", "route slot %d of %q names server %v / chord %v; the server published itself as %v / %v", i+1, host, td, route.GetChordDestination(), reg, sv.ChordT.Identity())
+					*rep = append(*rep, hcommon.Violation{Prop: "C26", Class: "route-server-identity-not-from-record", Msg: fmt.Sprintf("route slot %d of %q names server %v / chord %v; the server published itself as %v / %v", i+1, host, td, route.GetChordDestination(), reg, sv.ChordT.Identity())})
 				}
 			}
 		}
 		if route.GetHostname() != host {
-			w.res.Violate("C26", "route-hostname", "route slot %d of %q carries hostname %q", i+1, host, route.GetHostname())
+			*rep = append(*rep, hcommon.Violation{Prop: "C26", Class: "route-hostname", Msg: fmt.Sprintf("route slot %d of %q carries hostname %q", i+1, host, route.GetHostname())})
 		}
 	}
 	simrt.Probe("routes-checked")
 }
 
-func (w *World) checkReleased(c *Client, host string) {
+func (w *World) checkReleased(rep *[]hcommon.Violation, c *Client, host string) {
 	for i := 1; i <= 3; i++ {
 		if raw := w.kvGet(tun.RoutingKey(host, i)); len(raw) != 0 {
-			w.res.Violate("C26", "route-survives-release", "route slot %d of %q still exists after ReleaseTunnel", i, host)
+			*rep = append(*rep, hcommon.Violation{Prop: "C26", Class: "route-survives-release", Msg: fmt.Sprintf("route slot %d of %q still exists after ReleaseTunnel", i, host)})
 		}
 	}
 	ok, _ := w.cluster.Slots[0].Node.PrefixContains(context.Background(), []byte(tun.ClientHostnamesPrefix(c.Token)), []byte(host))
 	if ok {
-		w.res.Violate("C26", "registration-survives-release", "hostname %q is still registered to the client after ReleaseTunnel", host)
+		*rep = append(*rep, hcommon.Violation{Prop: "C26", Class: "registration-survives-release", Msg: fmt.Sprintf("hostname %q is still registered to the client after ReleaseTunnel", host)})
 	}
 	if raw := w.kvGet(tun.CustomHostnameKey(host)); len(raw) != 0 {
-		w.res.Violate("C26", "binding-survives-release", "custom-hostname binding of %q still exists after ReleaseTunnel", host)
+		*rep = append(*rep, hcommon.Violation{Prop: "C26", Class: "binding-survives-release", Msg: fmt.Sprintf("custom-hostname binding of %q still exists after ReleaseTunnel", host)})
 	}
 	simrt.Probe("release-checked")
 }
